@@ -110,6 +110,13 @@ def nd_spec(draw, dims=(2, 3, 3, 4)):
     d = draw(st.sampled_from(list(dims)))
     spec = draw(hgen.hist_spec(dims=(d,), dtypes=["int32", "int64", "float32", "float64"], max_bins=6, adaptive=False, rich_meta=False))
     # prefer pairwise different extents: asymmetric shapes make axis mix-ups visible
+    if draw(st.integers(0, 4)) == 0:
+        # narrow integer contents: every cell fits its type, the marginal sums do not
+        dt = draw(st.sampled_from(["int16", "int16", "int32"]))
+        big = st.sampled_from([6000, 12000, 30000, 7, 0]) if dt == "int16" else st.sampled_from([2 ** 30, 2 ** 29 + 3, 2 ** 31 - 1, 7, 0])
+        spec["dtype"] = dt
+        spec["freq"] = hgen.nested(draw, hgen.shape_of(spec), big)
+        spec["err2"] = None
     return spec
 
 
@@ -148,6 +155,24 @@ def check_misc(case, ctx: Ctx):
         tt = ctx.call("T.T", lambda: t.T)
         require(snap_equal(snapshot(tt), before), "T_T_not_identity", lambda: snap_diff(snapshot(tt), before))
         require(bool(tt == h), "T_T_not_equal", "")
+        # T is computed from the histogram's current state every time, and every result is a histogram of its own
+        if all(b.bin_count for b in h.binnings):
+            mid = [float((b.bins[0][0] + b.bins[0][1]) / 2) for b in h.binnings]
+            if case.get("then") == "scale":
+                h *= 2
+            else:
+                ctx.call("fill", h.fill, mid)
+                ctx.call("fill_n", h.fill_n, np.array([mid, mid]))
+            t2 = ctx.call("T after a change", lambda: h.T)
+            require(t2 is not t, "T_returns_same_object", "")
+            require(np.array_equal(np.asarray(t2.frequencies), np.asarray(h.frequencies).T) and np.array_equal(np.asarray(t2.errors2), np.asarray(h.errors2).T),
+                    "T_stale", f"T after a change: {np.asarray(t2.frequencies).tolist()} vs histogram {np.asarray(h.frequencies).tolist()}")
+            require(F(t2.total) == F(h.total) and F(t2.missed) == F(h.missed), "T_stale_total", f"{t2.total} vs {h.total}")
+            keep_t = snapshot(t2)
+            ctx.call("fill the earlier transpose", t.fill, list(reversed(mid)))
+            require(snap_equal(keep_t, snapshot(h.T)), "T_aliases_earlier_result", "a transpose handed out earlier was changed and shows up in a later h.T")
+            ctx.label("T_after_change")
+            before = snapshot(h)  # (h was changed on purpose above)
         ctx.nt(shape[0] != shape[1] and spec["err2"] is not None)
     elif kind == "accumulate":
         ax = case["axis"] % d
@@ -189,7 +214,8 @@ def misc_cases(draw, tier="quick"):
         spec["class"] = None
     else:
         spec = draw(nd_spec(dims=(2, 3, 4)))
-    return {"kind": kind, "spec": spec, "axis": draw(st.integers(0, 3)), "by": draw(st.sampled_from(["index", "name"]))}
+    return {"kind": kind, "spec": spec, "axis": draw(st.integers(0, 3)), "by": draw(st.sampled_from(["index", "name"])),
+            "then": draw(st.sampled_from(["fill", "scale"]))}
 
 
 # ---------------------------------------------------------------------------------
